@@ -263,6 +263,13 @@ class SerdeInterp(PlaceInterp):
                 a0 = deref(self.val(e['args'][0], env))
                 if as_sv(a0) is not None:
                     return self.drive(as_sv(a0), self.val(e['args'][1], env))
+            if p.split('::<')[0] == 'core::hint::must_use' and len(e.get('args', [])) == 1:
+                return self.val(e['args'][0], env)
+            if p.split('::<')[0] == 'alloc::fmt::format':
+                try:
+                    return super().val(e, env)
+                except Unanalysable:
+                    return '<message>'          # the text of an error message: irrelevant to what is decided here
             if seg == 'try_from' and len(e.get('args', [])) == 1 and self._workspace_body(f) is None:
                 a0 = deref(self.val(e['args'][0], env))
                 tgt = (e.get('t') or '')
